@@ -21,7 +21,7 @@ Definition applied_ok (p : pend) : bool :=
 Definition is_done (b : base) (op : Z) : bool := existsb (Z.eqb op) (b_done b).
 
 Definition protectedb (b : base) (t k : Z) : bool :=
-  existsb (fun ix => io_flag (snd ix) && (ic_key (cfg_of b (fst ix)) =? k)) (b_inst b)
+  existsb (fun ic => io_flag (inst_of b (fst ic)) && (ic_key (snd ic) =? k)) (b_cfgs b)
   || existsb (fun o => wonkind (snd o) && applied_ok (snd o) && negb (is_done b (fst o)) && (p_key (snd o) =? k)) (b_pend b)
   || existsb (fun g => lr_won (snd g) && (lr_t (snd g) =? t) && (lr_key (snd g) =? k)) (b_rets b).
 
